@@ -51,8 +51,11 @@ def problem(precond):
         p["periodic"] = None
         p["flow"] = dict(mu=[0.5, 1.0], sigma=[2.5, 2.2])
         p["like"] = gauss_loglike([1.0, 2.0], [0.7, 0.9])
-        if precond == "none":
+        if precond in ("none", "sloped", "peaked"):
             p["preconditioning"], p["pk"] = "none", None
+            if precond == "peaked":
+                # a likelihood much narrower than the proposal: a coarse fixed schedule collapses the weights (efficiency < 0.1)
+                p["like"] = gauss_loglike([1.0, 2.0], [0.12, 0.15])
         elif precond == "logit_affine":
             p["preconditioning"] = "default"
             p["pk"] = {"bounded_to_unbounded": True, "bounded_transform": "logit", "affine_transform": True}
@@ -67,6 +70,15 @@ def problem(precond):
     lo = [p["bounds"][k][0] for k in p["parameters"]]
     hi = [p["bounds"][k][1] for k in p["parameters"]]
     p["prior"] = box_logprior(lo, hi)
+    if precond == "sloped":
+        # a prior that is not constant on its support: a log-prior belonging to other points is then a different number
+        box = p["prior"]
+
+        def sloped(x):
+            xx = np.asarray(x, dtype=np.float64).reshape(len(x), -1)
+            return box(x) + 0.3 * xx[:, 0] - 0.2 * xx[:, 1]
+
+        p["prior"] = sloped
     return p
 
 
@@ -144,7 +156,8 @@ def run(cfg, fault_at=None, resume_from=None, file_path=None, keep_points=False,
     xp = get_xp(ns)
     seed = cfg["seed"]
     sampler = cfg["sampler"]
-    _kernel.reset(mode="prw" if sampler == "smc" else "det", scale=cfg.get("scale", 0.6), horizon=cfg.get("horizon", 200))
+    _kernel.reset(mode="prw" if sampler == "smc" else "det", scale=cfg.get("scale", 0.6), horizon=cfg.get("horizon", 200),
+                  int_draws=bool(cfg.get("kernel_int_draws")))
     orng.CONFIG["factory"] = None
     orng.CONFIG["seed"] = seed
     mon = Monitor(p["like"], p["prior"], ns, fault_at=fault_at, fault_exc=fault_exc, keep_points=keep_points)
@@ -241,7 +254,8 @@ def resume_on_same_sampler(F, resume_from):
     import orng
 
     cfg = F.cfg
-    _kernel.reset(mode="prw" if cfg["sampler"] == "smc" else "det", scale=cfg.get("scale", 0.6), horizon=cfg.get("horizon", 200))
+    _kernel.reset(mode="prw" if cfg["sampler"] == "smc" else "det", scale=cfg.get("scale", 0.6), horizon=cfg.get("horizon", 200),
+                  int_draws=bool(cfg.get("kernel_int_draws")))
     orng.CONFIG["factory"] = None
     orng.CONFIG["seed"] = cfg["seed"]
     F.mon.fault_at = None
